@@ -807,3 +807,270 @@ def tab_cli_groups(run):
     desc = describe_origin(f, o) if o else "?"
     run.check("output_filename" in desc, R, R + "|group|write-filename", f.loc(wt["span"]),
               "write_bytes is given the group's output_filename (%s)" % desc, "write_bytes file name comes from `%s`, not the group's output_filename" % desc)
+
+
+# ---------------------------------------------------------------------------
+# TAB-fmt: format dispatch (C11)
+
+def describe_arg(f, op):
+    ci = const_int(op)
+    if ci is not None:
+        return ci
+    s = cstr(f, op)
+    if s is not None:
+        return s
+    o = peel(f.origin_op(op))
+    d = describe_origin(f, o).replace("*", "").replace("&", "")
+    m = re.match(r"^param:format@(\w+)\.(\w+)$", d)
+    if m:
+        return "field:" + m.group(2)
+    m = re.match(r"^param:(\w+)((?:\.\w+)*)$", d)
+    if m:
+        return m.group(1) + m.group(2)
+    return "?" + d
+
+
+def local_calls_in(run, f, region):
+    out = []
+    for b, t in T.region_calls(f, region):
+        r = t.get("resolved")
+        if r and r in run.prog.fns:
+            out.append((b, t))
+    return out
+
+
+def panicking_blocks(f):
+    out = set()
+    for bi, t in f.calls():
+        c = t.get("callee") or ""
+        if t["target"] is None and ("panic" in c or "unreachable" in c or "assert_failed" in c):
+            out.add(bi)
+    return out
+
+
+def param_const_domain(f, param_local):
+    """values v for which the function compares `param == v` (switch or Eq) and the remaining case panics.
+    returns (set_of_values, True) if such a guard exists, else (None, False)"""
+    pan = panicking_blocks(f)
+    if not pan:
+        return None, False
+    # switch directly on the parameter
+    for b in sorted(f.reachable()):
+        t = f.blocks[b]["term"]
+        if t["k"] == "switch" and op_local(t["discr"]) is not None:
+            o = peel(f.origin_op(t["discr"]))
+            if o == ("param", param_local) or (o[0] == "multi" and o[1] == param_local):
+                other = _reach_straight(f, t["otherwise"], 30)
+                if other & pan or _only_reaches(f, t["otherwise"], pan):
+                    return set(int(v) for v, _ in t["targets"]), True
+    # assert!(p == a || p == b)
+    vals = set()
+    for bi, si, st in f.stmts():
+        if st["k"] == "assign" and st["rv"]["k"] == "binop" and st["rv"]["op"] == "Eq":
+            l, r = st["rv"]["l"], st["rv"]["r"]
+            c = const_int(r)
+            o = peel(f.origin_op(l))
+            if c is not None and (o == ("param", param_local) or (o[0] == "multi" and o[1] == param_local)):
+                # the false edge of the switch on this comparison must be able to reach a panic without passing a true edge
+                tt = f.blocks[bi]["term"]
+                if tt["k"] == "switch" and op_local(tt["discr"]) == st["place"]["l"]:
+                    vals.add((c, bi))
+    if vals:
+        # the all-false path panics
+        blocks = [b for _, b in vals]
+        last_false = None
+        for c, b in vals:
+            tt = f.blocks[b]["term"]
+            ft = [tg for v, tg in tt["targets"] if v == "0"]
+            if ft and _only_reaches_or_tests(f, ft[0], pan, set(blocks)):
+                last_false = b
+        if last_false is not None:
+            return set(c for c, _ in vals), True
+    return None, False
+
+
+def _only_reaches(f, b, targets, limit=40):
+    """every path from b ends in one of targets (no return reachable)"""
+    seen = set()
+    work = [b]
+    while work:
+        x = work.pop()
+        if x in seen:
+            continue
+        seen.add(x)
+        if x in targets:
+            continue
+        k = f.blocks[x]["term"]["k"]
+        if k == "return":
+            return False
+        s = f.succs(x)
+        if not s and k != "unreachable":
+            return False
+        work.extend(s)
+        if len(seen) > limit:
+            return False
+    return True
+
+
+def _only_reaches_or_tests(f, b, targets, tests):
+    seen = set()
+    work = [b]
+    while work:
+        x = work.pop()
+        if x in seen:
+            continue
+        seen.add(x)
+        if x in targets or x in tests:
+            continue
+        k = f.blocks[x]["term"]["k"]
+        if k == "return":
+            return False
+        s = f.succs(x)
+        if not s and k != "unreachable":
+            return False
+        work.extend(s)
+        if len(seen) > 60:
+            return False
+    return True
+
+
+def divisor_params(f):
+    """parameters (local indices) that can be the right operand of a Div/Rem"""
+    out = set()
+    for bi, si, st in f.stmts():
+        if st["k"] == "assign" and st["rv"]["k"] == "binop" and st["rv"]["op"] in ("Div", "Rem"):
+            for p in range(1, f.arg_count + 1):
+                if value_depends_on(f, st["rv"]["r"], p):
+                    out.add(p)
+    return out
+
+
+def tab_fmt(run):
+    R = "TAB-fmt"
+    prog = run.prog
+    spec = run.table("formats")
+    f = run.anchor(R, "driver::format_output")
+    if not f:
+        return
+    sw = T.enum_switch_arms(f, "OutputFormat")
+    if not sw:
+        run.violation(R, R + "|anchor|switch", f.loc(), "mechanism not found: match on the OutputFormat value in format_output")
+        return
+    bi, arms, otherwise, place, variants = sw[0]
+    run.floor(R, "OutputFormat variants", len(variants), 20)
+    run.floor(R, "dispatch arms", len(arms), 20)
+    for v in sorted(variants.values()):
+        key = "%s|dispatch|%s" % (R, v)
+        if v not in arms:
+            run.violation(R, key, f.loc(), "OutputFormat::%s has no arm in format_output (falls to the default arm)" % v)
+            continue
+        want = spec["dispatch"].get(v)
+        region = T.dominated_region(f, arms[v])
+        calls = local_calls_in(run, f, region)
+        if want is None:
+            run.violation(R, key, f.loc(), "OutputFormat::%s is not in the audited dispatch table (new format: audit and add it to tables/formats.json)" % v)
+            continue
+        if len(calls) != 1:
+            run.violation(R, key, f.loc(), "arm of OutputFormat::%s calls %d local functions, expected exactly one formatter" % (v, len(calls)))
+            continue
+        b, t = calls[0]
+        callee = t["resolved"].rsplit("::", 1)[-1]
+        args = [describe_arg(f, a) for a in t["args"]]
+        ok = callee == want[0] and args == want[1]
+        run.check(ok, R, key, f.loc(t["span"]),
+                  "OutputFormat::%s -> %s(%s)" % (v, callee, ", ".join(map(str, args))),
+                  "OutputFormat::%s is formatted by %s(%s); its name implies %s(%s)" % (v, callee, ", ".join(map(str, args)), want[0], ", ".join(map(str, want[1]))))
+        # positional agreement field -> parameter name
+        g = prog.fn(t["resolved"])
+        pn = spec["param_names"].get(callee)
+        if g is not None and pn is not None:
+            got = [g.local_name(i) for i in range(1, g.arg_count + 1)]
+            run.check(got == pn, R, "%s|params|%s" % (R, callee), g.loc(),
+                      "%s takes (%s)" % (callee, ", ".join(map(str, got))),
+                      "%s takes (%s), the dispatch table assumes (%s)" % (callee, ", ".join(map(str, got)), ", ".join(pn)))
+        # the result of the formatter is what is returned (text.bytes().collect() or directly)
+        dl = t["dest"]["l"]
+        if dl != 0:
+            rets = [x for x in f.full_defs(0)]
+            dep = any((d[0] == "call" and any(value_depends_on(f, a, dl) for a in d[2]["args"])) for d in rets)
+            run.check(dep, R, "%s|returned|%s" % (R, v), f.loc(t["span"]), "the text produced for %s is what format_output returns" % v,
+                      "the text produced for %s does not reach the return value" % v)
+    # wrappers
+    for wname, (callee, wargs) in sorted(spec["wrappers"].items()):
+        g = prog.find("BitVec>::" + wname)
+        key = "%s|wrapper|%s" % (R, wname)
+        if len(g) != 1:
+            run.violation(R, key, "-", "mechanism not found: %s" % wname)
+            continue
+        g = g[0]
+        calls = local_calls_in(run, g, g.reachable())
+        if len(calls) != 1:
+            run.violation(R, key, g.loc(), "%s calls %d local functions, expected one" % (wname, len(calls)))
+            continue
+        b, t = calls[0]
+        got = [describe_arg(g, a) for a in t["args"]]
+        run.check(t["resolved"].endswith("::" + callee) and got == wargs, R, key, g.loc(),
+                  "%s = %s(%s)" % (wname, callee, ", ".join(map(str, got))),
+                  "%s calls %s(%s), expected %s(%s)" % (wname, t["resolved"].rsplit("::", 1)[-1], ", ".join(map(str, got)), callee, ", ".join(map(str, wargs))))
+    # panic-guarded parameter domains: every caller passes a handled constant (or a validated set)
+    cli = run.table("cli")["validators"]
+    checked = 0
+    for g in prog.real_fns():
+        if not re.search(r"bitvec_format::<impl [\w:]*BitVec>::format_", g.id):
+            continue
+        for p in range(2, g.arg_count + 1):
+            dom, guarded = param_const_domain(g, p)
+            if not guarded:
+                continue
+            checked += 1
+            pname = g.local_name(p)
+            # all call sites
+            for h in prog.real_fns():
+                for b, t in h.calls():
+                    if t.get("resolved") != g.id:
+                        continue
+                    a = t["args"][p - 1]
+                    ci = const_int(a)
+                    key = "%s|domain|%s.%s|from|%s" % (R, g.id.rsplit("::", 1)[-1], pname, h.id)
+                    if ci is not None:
+                        run.check(ci in dom, R, key + "|%d" % ci, h.loc(t["span"]),
+                                  "%s passes %s=%d to %s, which handles %s" % (h.id, pname, ci, g.id.rsplit("::", 1)[-1], sorted(dom)),
+                                  "%s passes %s=%d to %s, which panics for anything but %s" % (h.id, pname, ci, g.id.rsplit("::", 1)[-1], sorted(dom)))
+                    else:
+                        d = describe_arg(h, a)
+                        m = re.match(r"^field:(\w+)$", str(d))
+                        # value comes from an OutputFormat field: the driver's validator set must be inside the domain
+                        vs = None
+                        if m:
+                            fmtname = {"format_tcgame": "tcgame", "format_annotated": "annotated", "format_intelhex": "intelhex"}.get(g.id.rsplit("::", 1)[-1])
+                            pn = {"address_unit": "addr_unit"}.get(m.group(1), m.group(1))
+                            vs = cli.get("%s.%s" % (fmtname, pn))
+                        okv = vs is not None and vs[0] == "set" and set(vs[1]) <= dom
+                        run.check(okv, R, key + "|validated", h.loc(t["span"]),
+                                  "%s of %s comes from a command-line parameter validated to %s, inside the handled set %s" % (pname, g.id.rsplit("::", 1)[-1], vs, sorted(dom)),
+                                  "%s of %s (handled values %s, panics otherwise) receives `%s`, which is not validated to that set" % (pname, g.id.rsplit("::", 1)[-1], sorted(dom), d))
+    run.floor(R, "panic-guarded formatter parameters", checked, 3)
+    # divisor parameters of formatters fed from the command line must exclude zero
+    for callee, fmtname in (("format_annotated", "annotated"), ("format_tcgame", "tcgame"), ("format_intelhex", "intelhex")):
+        g = prog.find("BitVec>::" + callee)
+        if len(g) != 1:
+            run.violation(R, "%s|div|anchor|%s" % (R, callee), "-", "mechanism not found: %s" % callee)
+            continue
+        g = g[0]
+        for p in divisor_params(g):
+            pname = g.local_name(p)
+            cname = {"digits_per_group": "group", "address_unit": "addr_unit"}.get(pname, pname)
+            vs = cli.get("%s.%s" % (fmtname, cname))
+            if vs is None:
+                continue
+            nonzero = (vs[0] == "set" and 0 not in vs[1]) or (vs[0] == "gt" and vs[1] >= 0)
+            run.check(nonzero, R, "%s|div|%s.%s" % (R, callee, pname), g.loc(),
+                      "%s divides by `%s`; its command-line validator %s excludes 0" % (callee, pname, vs),
+                      "%s divides by `%s` but the command-line validator %s admits 0" % (callee, pname, vs))
+        # power-of-two bases for (base-1).count_ones()
+    for fmtname in ("annotated", "tcgame"):
+        vs = cli.get(fmtname + ".base")
+        ok = vs and vs[0] == "set" and all(v >= 2 and (v & (v - 1)) == 0 for v in vs[1])
+        run.check(ok, R, "%s|pow2|%s.base" % (R, fmtname), "tables/cli.json",
+                  "every accepted base of `%s` is a power of two >= 2 (bits per digit = log2 base)" % fmtname,
+                  "`%s` accepts a base that is not a power of two: digits are extracted as bit groups" % fmtname)
